@@ -291,7 +291,7 @@ def build_outline(parents, corrupt=None):
         kids.setdefault(i, [])
     oid = lambda i: 10 if i == -1 else 11 + i
     for i in range(-1, n):
-        d = {} if i == -1 else {"Title": b"t%d" % i, "Dest": [i]}
+        d = {} if i == -1 else {"Title": _otitle(i).encode(), "Dest": [i]}
         if kids[i]:
             d["First"] = ref(doc, oid(kids[i][0]))
             d["Last"] = ref(doc, oid(kids[i][-1]))
@@ -315,10 +315,14 @@ def build_outline(parents, corrupt=None):
 
     def walk(i, level):
         for c in kids[i]:
-            exp.append((level, "t%d" % c, [c]))
+            exp.append((level, _otitle(c), [c]))
             walk(c, level + 1)
     walk(-1, 1)
     return doc, pdoc, exp
+
+
+def _otitle(i):
+    return "" if i == 1 else "t%d" % i          # the second item has an EMPTY title: still an item
 
 
 def h5_outlines(n=4, timeout=150, part=None, **kw):
